@@ -14,7 +14,7 @@ pub fn def() -> CheckDef {
         meta: CheckMeta {
             id: "C02",
             level: "fault_enumeration",
-            rule: "generated histories (small and large transactions, bucket deletes, growth from a 4-page file, page reuse, and histories whose free list spans several pages: a few hundred page-sized values deleted at once, then small commits) are executed by a worker process under the LD_PRELOAD I/O shim, which logs every write (offset, bytes), sync and file size on the database descriptor, with markers around every commit. For every group of writes between two completed syncs the analyser synthesises crash images on a scratch file: every subset of the unsynced writes (exhaustive up to 10 writes; above: none/all, singletons, complements, prefixes = process kill, suffixes, header-only, data-only, seeded random subsets), each write additionally torn at 512-byte sectors (prefix lost / tail lost / seeded sector subset) and header writes at 8-byte word granularity (every word prefix, every single word missing, every single word alone, seeded word subsets), with the file-size change durable or lost. Oracle per image: the independent parser says structurally sound and shows exactly S_{i-1} or S_i (exactly S_i once commit i has returned), and reopening through the public API succeeds and dumps the same. An evaluation is one distinct image (by content). Non-trivial = image with at least one but not all writes of its group applied, or a torn write.",
+            rule: "generated histories (small and large transactions, bucket deletes, growth from a 4-page file, page reuse, and histories whose free list spans several pages: a few hundred page-sized values deleted at once, then small commits; in 5 of 16 histories every write transaction is accompanied by a short-lived reader, open when the writer begins and closed before its commit or right after its begin) are executed by a worker process under the LD_PRELOAD I/O shim, which logs every write (offset, bytes), sync and file size on the database descriptor, with markers around every commit. For every group of writes between two completed syncs the analyser synthesises crash images on a scratch file: every subset of the unsynced writes (exhaustive up to 10 writes; above: none/all, singletons, complements, prefixes = process kill, suffixes, header-only, data-only, seeded random subsets), each write additionally torn at 512-byte sectors (prefix lost / tail lost / seeded sector subset) and header writes at 8-byte word granularity (every word prefix, every single word missing, every single word alone, seeded word subsets), with the file-size change durable or lost. Oracle per image: the independent parser says structurally sound and shows exactly S_{i-1} or S_i (exactly S_i once commit i has returned), and reopening through the public API succeeds and dumps the same. An evaluation is one distinct image (by content). Non-trivial = image with at least one but not all writes of its group applied, or a torn write.",
             assumptions: &[
                 "power-loss model: writes issued since the last completed fsync/fdatasync may be lost, reordered or torn at sector (header: word) granularity; a completed sync is durable including the file size",
                 "crashes during initial file creation are out of scope of the property",
@@ -29,6 +29,9 @@ pub fn def() -> CheckDef {
 #[derive(Serialize, Deserialize, Clone, Debug)]
 pub struct C02Case {
     pub history: HistoryCase,
+    /// short-lived reader around every writer (RunOpts::reader_dance)
+    #[serde(default)]
+    pub dance: u8,
 }
 
 pub struct Analysis {
@@ -77,8 +80,8 @@ pub fn run_worker(case: &HistoryCase, dir: &Path, extra_env: &[(&str, String)], 
     Ok((evs, ms, out))
 }
 
-pub fn analyse(case: &HistoryCase, dir: &Path, seed: u64, exhaustive_up_to: usize, random_subsets: usize) -> Result<Analysis, Failure> {
-    let (evs, models, out) = run_worker(case, dir, &[], "crash")?;
+pub fn analyse(case: &HistoryCase, dance: u8, dir: &Path, seed: u64, exhaustive_up_to: usize, random_subsets: usize) -> Result<Analysis, Failure> {
+    let (evs, models, out) = run_worker(case, dir, &[("JV_READER_DANCE", dance.to_string())], "crash")?;
     if !out.status.success() {
         return Err(Failure::new(
             "worker",
@@ -247,9 +250,10 @@ fn shard(ctx: &ShardCtx, known: &Known) -> ShardOut {
     for i in 0..n {
         let seed = mix(ctx.shard_seed("c02"), i as u64);
         let history = crash_history(seed);
-        let case = C02Case { history };
+        let dance = if seed % 4 == 2 { 1 } else if seed % 16 == 7 { 2 } else { 0 };
+        let case = C02Case { history, dance };
         note_current(ctx, "c02", &case);
-        match analyse(&case.history, &ctx.scratch, seed, ex, rnd) {
+        match analyse(&case.history, case.dance, &ctx.scratch, seed, ex, rnd) {
             Ok(a) => {
                 out.evaluations += a.images;
                 for h in &a.nontrivial_hashes {
@@ -258,6 +262,9 @@ fn shard(ctx: &ShardCtx, known: &Known) -> ShardOut {
                     }
                 }
                 out.class_n("commits analysed", a.commits);
+                if case.dance != 0 {
+                    out.class_n("commits analysed with a short-lived reader around the writer", a.commits);
+                }
                 out.class_n("write groups", a.groups);
                 out.class_n("write groups enumerated exhaustively", a.exhaustive_groups);
                 out.class_n("write groups with a file-size change", a.size_change_groups);
@@ -287,5 +294,5 @@ pub fn replay(fr: &FailRec, dir: &std::path::Path) -> Option<Failure> {
         Ok(c) => c,
         Err(e) => return Some(Failure::new("harness_panic", format!("bad C02 case: {}", e))),
     };
-    analyse(&case.history, dir, 1, 10, 24).err()
+    analyse(&case.history, case.dance, dir, 1, 10, 24).err()
 }
